@@ -144,6 +144,11 @@ func (p *c10) Run(tier string, seed int64, idx int) core.CaseResult {
 	text := yang.Render(root, lay)
 	nb := lay.NBoundaries
 	c10Compare(root, text, "canonical", &res)
+	// trivia after the last token, ending the text without a line break
+	for k, tail := range []string{"// the end", "//", " /* the end */", "\n// x\n// y", "\t"} {
+		res.Ev("trailing_trivia_renderings", 1)
+		c10Compare(root, strings.TrimRight(text, "\n")+tail, fmt.Sprintf("tail-%d", k), &res)
+	}
 	// random layouts
 	for k := 0; k < tierN(tier, 3, 7); k++ {
 		l := &yang.Layout{R: r, Quote: 1, Trivia: r.Intn(3), Boundary: -1, CRLF: r.Chance(1, 6)}
